@@ -210,6 +210,12 @@ impl Recovery {
                     None => {
                         // The queue is empty, don't count ACKs.
                         *dup_acks = 0;
+                        // Still remember this ACK: if data is sent next, repeats of it are
+                        // duplicates and must be counted from the first one.
+                        self.last_ack = Some(LastAck {
+                            window: header.wnd_size,
+                            ack_nr: header.ack_nr,
+                        });
                         return;
                     }
                 };
